@@ -629,6 +629,16 @@ def ctrl4(ctx) -> List[Ob]:
         if not loops:
             out.append(bad("CTRL-4", f2.qualname, key, where, "the table is filled outside a loop"))
             continue
+        # the key is the current size of the table (`value = len(table); ..; table[value] = s`): with every key
+        # handed out this way and nothing ever removed, the keys are 0, 1, 2, .. and never repeat
+        size_defs = [d for d in cfg.reaching_defs(t, k.id) if d.stmt is not None]
+        if size_defs and all(isinstance(d.stmt, ast.Assign) and A.unparse(d.stmt.value) == f"len({ht})" for d in size_defs):
+            other_keys = [x for x in tstores if not (isinstance(x.targets[0].slice, ast.Name) and all(isinstance(d.stmt, ast.Assign) and A.unparse(d.stmt.value) == f"len({ht})" for d in cfg.reaching_defs(x, x.targets[0].slice.id) if d.stmt is not None))]
+            removals = [c_ for c_ in A.walk_no_nested(f2.node) if isinstance(c_, ast.Call) and isinstance(c_.func, ast.Attribute) and c_.func.attr in ("pop", "popitem", "clear") and A.unparse(c_.func.value) == ht] + [d_ for d_ in A.walk_no_nested(f2.node) if isinstance(d_, ast.Delete) and any(isinstance(x, ast.Subscript) and A.unparse(x.value) == ht for x in d_.targets)]
+            between = [z for d in size_defs for z in cfg.reachable(d) if z is not tn and z.stmt is not None and any(z.stmt is x for x in tstores) and tn in cfg.reachable(z) and z in cfg.reachable(d, avoid=lambda y: y is tn)]
+            if not other_keys and not removals and not between:
+                out.append(ok("CTRL-4", f2.qualname, key, where, f"{k.id} = len({ht}) right before the store: keys are the consecutive sizes of the table"))
+                continue
         hdr = loops[0]
 
         def adv(z) -> bool:
@@ -713,7 +723,13 @@ def ctrl5(ctx) -> List[Ob]:
             break
     if early_ret is not None:
         guard = next(a for a in A.ancestors(early_ret.stmt) if isinstance(a, ast.If))
-        conj = guard.test.values if isinstance(guard.test, ast.BoolOp) and isinstance(guard.test.op, ast.And) else [guard.test]
+        # every condition the return sits under (nested ifs, guard clauses), conjunctions flattened
+        conj = []
+        for t_, p_ in _guard_conditions(h.node, early_ret.stmt):
+            if not p_:
+                continue
+            te_ = ast.parse(t_, mode="eval").body
+            conj += te_.values if isinstance(te_, ast.BoolOp) and isinstance(te_.op, ast.And) else [te_]
         # names of the exiting-blocks list (first result of find_exiting_and_exits)
         exiting_names = set()
         for s_ in A.walk_no_nested(h.node):
@@ -724,6 +740,13 @@ def ctrl5(ctx) -> List[Ob]:
         for cj in conj:
             if isinstance(cj, ast.Compare) and len(cj.ops) == 1 and isinstance(cj.ops[0], ast.Eq) and isinstance(cj.left, ast.Call) and isinstance(cj.left.func, ast.Name) and cj.left.func.id == "len" and isinstance(cj.comparators[0], ast.Constant) and cj.comparators[0].value == 1:
                 single.add(A.unparse(cj.left.args[0]))
+        # two lists that are equal have the same length: `len(B) == 1 and B == X`
+        for _ in range(2):
+            for cj in conj:
+                if isinstance(cj, ast.Compare) and len(cj.ops) == 1 and isinstance(cj.ops[0], ast.Eq) and isinstance(cj.left, ast.Name) and isinstance(cj.comparators[0], ast.Name):
+                    a_, b_ = cj.left.id, cj.comparators[0].id
+                    if a_ in single or b_ in single:
+                        single |= {a_, b_}
         if exiting_names and not (exiting_names & single):
             out.append(bad("CTRL-5", h.qualname, key, ctx.where(h, guard), f"the early exit does not require len({sorted(exiting_names)[0]}) == 1 (it tests {sorted(single)}): a loop with several exiting blocks is declared finished and keeps several exits"))
         elif exiting_names:
@@ -846,6 +869,10 @@ def ctrl7(ctx) -> List[Ob]:
                 firsts.add(A.unparse(n.args[0].elts[0]))
                 if len(n.args) > 1 or n.keywords:
                     firsts.add("<enumerate start != 0>")
+        # the table written out: {0: head, 1: exit}
+        if isinstance(v, ast.Dict) and v.keys and all(isinstance(k_, ast.Constant) for k_ in v.keys):
+            zero = [vv for k_, vv in zip(v.keys, v.values) if k_.value == 0 and not isinstance(k_.value, bool)]
+            firsts.add(A.unparse(zero[0]) if zero else "<no entry for 0>")
     if not firsts:
         out.append(unresolved("CTRL-7", fn.qualname, key, where, "cannot read how the latch's value table is built"))
     elif firsts == {g.latch_back}:
